@@ -1354,6 +1354,27 @@ def canon(o, _depth=0):  # noqa: C901, PLR0911, PLR0912
     return (tn, r)
 
 
+def has_unordered_input(v) -> bool:
+    """Does a value spec contain a set / frozenset with two or more members?  Its iteration order depends on addresses
+    when members hash by identity (generators, Decimal('NaN'), custom objects) and differs between two builds of the spec."""
+    if isinstance(v, list):
+        return any(has_unordered_input(x) for x in v)
+    if isinstance(v, dict):
+        if v.get("$") in ("set", "fset") and len(v["v"]) >= 2:
+            return True
+        return any(has_unordered_input(x) for x in v.values())
+    return False
+
+
+def unordered(c):
+    """Order-insensitive image of a canon() value (for results computed from unordered inputs)."""
+    if isinstance(c, tuple):
+        if c and isinstance(c[0], str):
+            return (c[0], *sorted((unordered(x) for x in c[1:]), key=repr))
+        return tuple(sorted((unordered(x) for x in c), key=repr))
+    return c
+
+
 def canon_eq(a, b) -> bool:
     return canon(a) == canon(b)
 
